@@ -156,6 +156,7 @@ class ControlThread(Thread):
         no longer running.
         """
         self._logger.info("Shutting down...")
+        time.resume()  # Never leave the system clock paused.
         self._controller.shutdown()
         self._running = False
 
